@@ -70,6 +70,10 @@ TEXT = {
          "are decided by the watchdogged special-set oracle (faces/edges/corners/axis/wire/thresholds at +-ulp, denormals, zero-size sources, 1e12 distances); recorded findings listed by input class",
          "IEEE semantics are outside the real-number model; Lean's Float is opaque beyond + - * /",
          "Lean 4 theorems over R on kernel ports + watchdogged special-point oracle on the real code"),
+ "C16": ("proof (partial): an edge is reported open iff it does not lie in exactly two faces; the verdict is invariant under any permutation of faces and under rotating/flipping any face; "
+         "connected-subset detection modelled and compared exactly; self-intersection, inside test and outward re-orientation by the permutation/flip/derived-mesh oracle on the real class",
+         "float geometry (ray tests, absolute tolerances) is outside the combinatorial model",
+         "Lean 4 theorems over face-index lists (List.Perm/count) + exact correspondence of the combinatorial functions + mesh oracle"),
 }
 props = [json.loads(l) for l in open("properties.jsonl")]
 checks = []
